@@ -122,8 +122,12 @@ func (s *rrSegFetcher) doCheck() {
 	defer s.doCheck()
 
 	// queue outgoing interest for the next segment
+	// (the name is built in a slice of its own: the Interests of one window are
+	// encoded later, and appending to fetchName in place would make them all
+	// share - and overwrite - the spare capacity of that slice)
+	fetchName := state.fetchName[:len(state.fetchName):len(state.fetchName)]
 	args := ExpressRArgs{
-		Name: append(state.fetchName,
+		Name: append(fetchName,
 			enc.NewSegmentComponent(seg),
 		),
 		Config: &ndn.InterestConfig{
